@@ -703,7 +703,7 @@ def load_known_findings():
 
 
 def write_replay(pid, case_id, payload):
-    d = workdir("replays", pid)
+    d = workdir("replays" + os.environ.get("VERIF_REPLAY_SUFFIX", ""), pid)
     p = os.path.join(d, f"{case_id}.json")
     with open(p, "w") as f:
         json.dump(payload, f, indent=1, sort_keys=True)
